@@ -56,7 +56,14 @@ fn credential(cx: &mut Cx, c: u64, suite: Suite, issuer: NodeId, holder: NodeId)
         let mut cur = msgs.clone();
         for j in 0..k {
             let index = if l <= 6 { (j + cx.run_index as usize) % l } else if long { let cands = [l - 1, l - 2, 0, 63, 64, 127, 128, 253, 254, 255, 256]; let c: Vec<usize> = cands.iter().copied().filter(|&i| i < l).collect(); c[cx.ch.choose("index_long", c.len() as u64) as usize] } else { cx.ch.choose("index", l as u64) as usize };
-            let new = if cx.ch.chance("same_value", 1, 12) { cur[index].clone() } else if cx.ch.chance("empty_value", 1, 8) { Vec::new() } else { bytes_for(seed, b"u-new", j as u64, 3 + j % 7) };
+            // the new value: unrelated to the old one, equal to it, empty -- or RELATED to it (the old
+            // value extended by 1 / 255 / 256 / 257 / 512 octets, or cut by 256): a comparison of
+            // old and new that looks at a prefix or at a truncated length sees no change there;
+            // rarely a value of 65535 / 65536 / 70000 octets
+            let new = if cx.ch.chance("same_value", 1, 12) { cur[index].clone() } else if cx.ch.chance("empty_value", 1, 8) { Vec::new() }
+                else if cx.ch.chance("related_value", 1, 5) { cx.count("probe.new_value_related_to_the_old_one"); let pad = [1usize, 255, 256, 257, 512][cx.ch.choose("related_pad", 5) as usize]; if cur[index].len() > 256 && cx.ch.chance("related_cut", 1, 2) { cur[index][..cur[index].len() - 256].to_vec() } else { let mut v = cur[index].clone(); v.extend(std::iter::repeat(if cx.ch.chance("pad_zero", 1, 2) { 0u8 } else { 7 }).take(pad)); v } }
+                else if cx.ch.chance("huge_value", 1, 40) { cx.count("probe.value_of_64KiB"); bytes_for(seed, b"u-huge", j as u64, [65535usize, 65536, 70000][cx.ch.choose("huge_len", 3) as usize]) }
+                else { bytes_for(seed, b"u-new", j as u64, 3 + j % 7) };
             reqs.push(Req { index, old: cur[index].clone(), new: new.clone(), tag: format!("c{c}u{j}") });
             cur[index] = new;
         }
